@@ -5,10 +5,12 @@ package main
 // chained, on empty and pre-filled destinations, with faults injected into the destination.
 // Model: lean/FitModel/Writer.lean; driver: lean/Driver/Writer.lean.
 //
-//	wr  k=<plain|at|seek|both> bs=<n> m=<b|s> a=<arch> h=<hdropt> l=<lmt> pv=<n> v=<0|1> pre=<hex|-> f=<k.j,k.j…|-> c=<0|1> <files…>
+//	wr  k=<plain|at|seek|both> bs=<n> m=<b|s> a=<arch> h=<hdropt> l=<lmt> pv=<n> v=<0|1> pre=<hex|-> [pos=<n>] f=<k.j,k.j…|-> c=<0|1> <files…>
 //	    one run. m: b = Encoder.Encode per file; c = Encoder.EncodeWithContext (background context) per file;
 //	    s = StreamEncoder.WriteMessage per message + SequenceCompleted per file.
 //	    v=1: a stateful, transforming message validator (wrValidator below) instead of the pass-through one.
+//	    pos: where the pre-filled destination is positioned (default: at its end, the documented use; anything else is the
+//	    caveat "seek to the end first" — model and code must still agree on what gets written, the properties are n/a).
 //	    f: the k-th operation on the destination fails after taking at most j bytes. c=1: keep calling after an error.
 //	    → r=<result per API call> hit=<index of the call in which each fault fired> log=<destination operations> out=<hex> ci=<CheckIntegrity of out>
 //	wrx …same, no f=…   sweep: the run is repeated with one fault at every operation k of the fault-free run and
@@ -68,8 +70,8 @@ type wrDest struct {
 
 // wrReplay: the content after the first k operations of ops took effect in full and j bytes of operation k
 // (a crash of the destination at that point), starting from pre
-func wrReplay(pre []byte, ops []wrRawOp, k, j int) []byte {
-	d := &wrDest{buf: append([]byte(nil), pre...), pos: int64(len(pre))}
+func wrReplay(pre []byte, pos int, ops []wrRawOp, k, j int) []byte {
+	d := &wrDest{buf: append([]byte(nil), pre...), pos: int64(pos)}
 	for i := 0; i <= k && i < len(ops); i++ {
 		op := ops[i]
 		p := op.p
@@ -181,8 +183,8 @@ func (w wrBoth) Write(p []byte) (int, error)            { return w.d.write(p) }
 func (w wrBoth) WriteAt(p []byte, o int64) (int, error) { return w.d.writeAt(p, o) }
 func (w wrBoth) Seek(o int64, wh int) (int64, error)    { return w.d.seek(o, wh) }
 
-func wrNewDest(kind string, pre []byte, faults map[int]int) (io.Writer, *wrDest) {
-	d := &wrDest{buf: append([]byte(nil), pre...), pos: int64(len(pre)), faults: faults}
+func wrNewDest(kind string, pre []byte, pos int, faults map[int]int) (io.Writer, *wrDest) {
+	d := &wrDest{buf: append([]byte(nil), pre...), pos: int64(pos), faults: faults}
 	switch kind {
 	case "at":
 		return wrAt{d}, d
@@ -229,6 +231,7 @@ type wrCfg struct {
 	pv               int
 	v                int
 	pre              []byte
+	pos              int // position of the destination when the encoder gets it
 	faults           map[int]int
 	cont             bool
 	files            []wFile
@@ -252,6 +255,13 @@ func wrParse(args []string) (*wrCfg, bool) {
 			return nil, false
 		}
 		c.pre = b
+	}
+	c.pos = len(c.pre)
+	if p, ok := kv["pos"]; ok {
+		c.pos = atoi(p)
+		if c.pos < 0 || c.pos > len(c.pre) {
+			return nil, false
+		}
 	}
 	if f := kv["f"]; f != "" && f != "-" {
 		c.hasFaultArgument = true
@@ -316,7 +326,7 @@ type wrOut struct {
 
 // wrRun runs one configuration with the given faults. bad = the operation cannot be built (bad-op).
 func wrRun(c *wrCfg, faults map[int]int) (o wrOut, bad bool) {
-	w, d := wrNewDest(c.kind, c.pre, faults)
+	w, d := wrNewDest(c.kind, c.pre, c.pos, faults)
 	call := func(f func() error) bool {
 		before := len(d.fired)
 		err := f()
@@ -460,7 +470,7 @@ func execWrX(args []string) string {
 				sb.WriteString("/" + hex.EncodeToString(o.out))
 			}
 			// the faulted run must have left exactly the crash state "first k operations of the healthy run, j bytes of the next"
-			if !bytes.Equal(o.out, wrReplay(c.pre, base.raw, k, j)) || len(o.log) != k+1 {
+			if !bytes.Equal(o.out, wrReplay(c.pre, c.pos, base.raw, k, j)) || len(o.log) != k+1 {
 				sb.WriteString("/not-a-crash-prefix")
 			}
 			n++
@@ -503,7 +513,7 @@ func execWrC(args []string) string {
 			}
 			for _, bs := range wrSizes {
 				cc := *c
-				cc.kind, cc.mode, cc.bs = kind, mode, bs
+				cc.kind, cc.mode, cc.bs, cc.pos = kind, mode, bs, len(c.pre)
 				o, bad := wrRun(&cc, nil)
 				if bad {
 					return "bad-op"
@@ -695,6 +705,15 @@ func wrPre(rng *Rng, arch byte) string {
 	return "-"
 }
 
+// wrPos: now and then a pre-filled destination is NOT positioned at its end (token " pos=<n>", else "")
+func wrPos(rng *Rng, pre string) string {
+	if pre == "-" || rng.Intn(6) != 0 {
+		return ""
+	}
+	count("not-at-end")
+	return fmt.Sprintf(" pos=%d", rng.Intn(len(pre)/2+1))
+}
+
 func genEncWriters(emit func(string), tier string, rng *Rng) {
 	n := 8000
 	if tier == "thorough" {
@@ -724,7 +743,7 @@ func genEncWriters(emit func(string), tier string, rng *Rng) {
 		if rng.Intn(8) == 0 {
 			cont = 1
 		}
-		emit(fmt.Sprintf("wr k=%s bs=%d m=%s %s pre=%s f=- c=%d %s", kind, wrRandSize(rng), mode, g.toks(), pre, cont, strings.Join(wrFileTokens(files), " ")))
+		emit(fmt.Sprintf("wr k=%s bs=%d m=%s %s pre=%s%s f=- c=%d %s", kind, wrRandSize(rng), mode, g.toks(), pre, wrPos(rng, pre), cont, strings.Join(wrFileTokens(files), " ")))
 		count("wr/" + mode + "/" + kind)
 		count(fmt.Sprintf("files=%d", nfiles))
 		if pre != "-" {
@@ -816,7 +835,7 @@ func genEncFaults(emit func(string), tier string, rng *Rng) {
 					kind = "seek"
 				}
 				bs := []int{0, 0, 1, 14, 4096, wrRandSize(rng)}[rng.Intn(6)]
-				emit(fmt.Sprintf("wrx k=%s bs=%d m=%s %s pre=%s c=0 %s", kind, bs, mode, g.toks(), pre, ft))
+				emit(fmt.Sprintf("wrx k=%s bs=%d m=%s %s pre=%s%s c=0 %s", kind, bs, mode, g.toks(), pre, wrPos(rng, pre), ft))
 				count("wrx/" + mode + "/" + kind)
 			}
 		}
@@ -845,7 +864,7 @@ func genEncFaults(emit func(string), tier string, rng *Rng) {
 				fs = append(fs, fmt.Sprintf("%d.%d", k, []int{0, 0, 1, 2, 5, 13, 14, 1000}[rng.Intn(8)]))
 			}
 			cont := rng.Intn(2)
-			emit(fmt.Sprintf("wr k=%s bs=%d m=%s %s pre=%s f=%s c=%d %s", kind, wrRandSize(rng), mode, g.toks(), pre, strings.Join(fs, ","), cont, ft))
+			emit(fmt.Sprintf("wr k=%s bs=%d m=%s %s pre=%s%s f=%s c=%d %s", kind, wrRandSize(rng), mode, g.toks(), pre, wrPos(rng, pre), strings.Join(fs, ","), cont, ft))
 			count(fmt.Sprintf("wr-faults/%s/c=%d", mode, cont))
 		}
 	}
